@@ -53,13 +53,6 @@ package cmap
 //@ assume func (s Subtable) CodeRange() (low rune, high rune)
 //@   modifies nothing
 
-// GetBest/Get call the format decoders through a table of function values;
-// their frame is assumed, not checked.
-//@ assume func (ss Table) GetBest() (sub Subtable, err error)
-//@   modifies nothing
-//@ assume func (ss Table) Get(key Key) (sub Subtable, err error)
-//@   ensures !has(ss, key) ==> err != nil
-//@   modifies nothing
 
 // Format 4 encoding: the idRangeOffset of a segment that uses glyphIdArray must
 // address its values by the formula of the specification,
@@ -107,11 +100,32 @@ package cmap
 // all412(t) "every subtable of t is a format 4 or format 12 subtable".
 //@ ghost decodes(d []byte) bool
 //@ ghost all412(t Table) bool
+// plat(sub)/enc(sub): the key under which a decoded subtable was stored.
+//@ ghost plat(s Subtable) int
+//@ ghost enc(s Subtable) int
 //@ assume func (ss Table) Get(key Key) (sub Subtable, err error)
-//@   ensures err == nil ==> has(ss, key) && sub != nil
+//@   ensures err == nil ==> has(ss, key) && decodes(ss[key]) && sub != nil && plat(sub) == key.PlatformID && enc(sub) == key.EncodingID
 //@   ensures has(ss, key) && decodes(ss[key]) && (key.PlatformID != 1 || key.EncodingID == 0) ==> err == nil
 //@   ensures err == nil && all412(ss) ==> is(sub, Format4) || is(sub, Format12)
 //@   modifies nothing
 //@ assume func (s Subtable) Encode(language uint16) (res []byte)
 //@   ensures res != nil && fresh(res)
 //@   modifies nothing
+
+// GetBest: the best-subtable choice prefers full Unicode (3,10), then (0,4),
+// then the BMP tables (3,1), (0,3), then the vintage Apple table (1,0): the
+// result comes from the first of these keys (language 0) whose subtable is
+// present and decodes.  (Table.Get is assumed, see above.)
+//@ pred okk(ss Table, p int, e int) = has(ss, Key{p, e, 0}) && decodes(ss[Key{p, e, 0}])
+//@ func (ss Table) GetBest() (sub Subtable, err error)   props: C09 C16
+//@   ensures err == nil ==> sub != nil
+//@   ensures okk(ss, 3, 10) ==> err == nil && plat(sub) == 3 && enc(sub) == 10
+//@   ensures !okk(ss, 3, 10) && okk(ss, 0, 4) ==> err == nil && plat(sub) == 0 && enc(sub) == 4
+//@   ensures !okk(ss, 3, 10) && !okk(ss, 0, 4) && okk(ss, 3, 1) ==> err == nil && plat(sub) == 3 && enc(sub) == 1
+//@   ensures !okk(ss, 3, 10) && !okk(ss, 0, 4) && !okk(ss, 3, 1) && okk(ss, 0, 3) ==> err == nil && plat(sub) == 0 && enc(sub) == 3
+//@   ensures !okk(ss, 3, 10) && !okk(ss, 0, 4) && !okk(ss, 3, 1) && !okk(ss, 0, 3) && okk(ss, 1, 0) ==> err == nil && plat(sub) == 1 && enc(sub) == 0
+//@   ensures err == nil ==> (plat(sub) == 3 && enc(sub) == 10) || (plat(sub) == 0 && enc(sub) == 4) || (plat(sub) == 3 && enc(sub) == 1) || (plat(sub) == 0 && enc(sub) == 3) || (plat(sub) == 1 && enc(sub) == 0)
+//@   modifies nothing
+//@   loop 0
+//@     invariant len(candidates) == 5 && candidates[0].PlatformID == 3 && candidates[0].EncodingID == 10 && candidates[1].PlatformID == 0 && candidates[1].EncodingID == 4 && candidates[2].PlatformID == 3 && candidates[2].EncodingID == 1 && candidates[3].PlatformID == 0 && candidates[3].EncodingID == 3 && candidates[4].PlatformID == 1 && candidates[4].EncodingID == 0
+//@     invariant (iter >= 1 ==> !okk(ss, 3, 10)) && (iter >= 2 ==> !okk(ss, 0, 4)) && (iter >= 3 ==> !okk(ss, 3, 1)) && (iter >= 4 ==> !okk(ss, 0, 3)) && (iter >= 5 ==> !okk(ss, 1, 0))
